@@ -77,7 +77,7 @@ def gen_cases(tier, seed):
     cases = [{"kind": "settings", "command": "phonopy"}, {"kind": "settings", "command": "phonopy-load"}]
     wf = [("rocksalt", "F", True), ("zincblende", "F", False), ("cscl", "P", True), ("tric2", "P", False), ("rutile", "P", False), ("hcp", "P", False), ("afm_cr", "P", False), ("wurtzite", "P", True)]
     if tier == "quick":
-        wf = wf[:5]
+        wf = wf[:6]  # (hcp: a primitive lattice matrix that is not symmetric - row/column mix-ups of the reciprocal basis show)
     for name, pa, nac in wf:
         cases.append({"kind": "workflow", "crystal": {"name": name}, "pa": pa, "nac": nac, "seed": int(rng.integers(10 ** 6)), "_cost": 50})
     # calculator known only from the yaml file that is read (no --qe style option): units, NAC factor from BORN, summary file
@@ -785,6 +785,35 @@ def run_case(c):
             n_files += 1
             keys.append("wf|%s|band-connection" % c["crystal"]["name"])
         rm("band.yaml")
+        if cli("phonopy-load", pre + ["--band", "0 0 0 1/2 0 0 1/3 1/3 0 0 0 0 0 0 1/2", "--band-points", "21", "--band-const-interval"], "band-const-interval") is not None and os.path.exists(os.path.join(tmp, "band.yaml")):
+            # documented rule (BAND_CONST_INTERVAL): the longest segment gets BAND_POINTS points, the others in proportion to their length in
+            # reciprocal space (at least two). Lengths from the reciprocal basis b_i = a_j x a_k / V of the primitive cell, computed here
+            tw = twin()
+            A_ = np.array(tw.primitive.cell)
+            V_ = float(np.dot(A_[0], np.cross(A_[1], A_[2])))
+            Brec = np.array([np.cross(A_[1], A_[2]), np.cross(A_[2], A_[0]), np.cross(A_[0], A_[1])]) / V_  # rows b_1, b_2, b_3
+            ends = np.array([[0, 0, 0], [0.5, 0, 0], [1 / 3, 1 / 3, 0], [0, 0, 0], [0, 0, 0.5]])
+            lens = np.array([np.linalg.norm((ends[i + 1] - ends[i]) @ Brec) for i in range(4)])
+            raw = lens / lens.max() * 21
+            npts = np.maximum(np.rint(raw).astype(int), 2)
+            y = load_yaml("band.yaml")
+            got_n = [int(v) for v in y.get("segment_nqpoint", [])]
+            obs["band_const_interval"] = obs.get("band_const_interval", 0) + 1
+            obs["band_const_interval_unequal_segments"] = obs.get("band_const_interval_unequal_segments", 0) + int(len(set(npts.tolist())) > 1)
+            obs["band_const_interval_metric_matters"] = obs.get("band_const_interval_metric_matters", 0) + int(
+                not np.allclose(lens, [np.linalg.norm((ends[i + 1] - ends[i]) @ Brec.T) for i in range(4)], rtol=1e-6))
+            if np.abs(raw - np.floor(raw) - 0.5).min() > 1e-6:  # (no segment sits on a rounding tie)
+                if got_n != npts.tolist():
+                    bad("output_mismatch", "band.yaml with --band-const-interval has %s q-points per segment; segment lengths %s in reciprocal space with BAND_POINTS=21 give %s" % (
+                        got_n, np.round(lens, 5).tolist(), npts.tolist()), step="band-const-interval", file="band.yaml", quantity="segment_nqpoint", **feat)
+                else:
+                    want_q = np.vstack([ends[i] + np.outer(np.arange(npts[i]) / (npts[i] - 1), ends[i + 1] - ends[i]) for i in range(4)])
+                    cmp_arr("q-positions", [p_["q-position"] for p_ in y["phonon"]], want_q, 7, "band-const-interval", "band.yaml")
+                    tw.run_band_structure([want_q[sum(npts[:i]):sum(npts[:i + 1])] for i in range(4)])
+                    cmp_arr("frequencies", yaml_freqs(y), np.vstack(tw.get_band_structure_dict()["frequencies"]), 10, "band-const-interval", "band.yaml")
+            n_files += 1
+            keys.append("wf|%s|band-const-interval" % c["crystal"]["name"])
+        rm("band.yaml")
         if cli("phonopy-load", pre + ["--band", "0.1 0.2 0.3 1/2 0.1 0", "--band-points", "4", "--eigvecs"], "band-eigvecs") is not None and os.path.exists(os.path.join(tmp, "band.yaml")):
             from phonopy.phonon.band_structure import get_band_qpoints
 
@@ -831,6 +860,8 @@ def run_case(c):
         for label, opts, conf in (("mesh", ["--mesh", "2", "3", "2", "--gc"], "MESH = 2 3 2\nGAMMA_CENTER = .TRUE."),
                                   ("tprop", ["--mesh", "2", "2", "2", "-t", "--tmax", "200", "--tstep", "50"], "MESH = 2 2 2\nTPROP = .TRUE.\nTMAX = 200\nTSTEP = 50"),
                                   ("band", ["--band", "0 0 0 0 1/2 0", "--band-points", "5"], "BAND = 0 0 0 0 1/2 0\nBAND_POINTS = 5"),
+                                  ("band-const-interval", ["--band", "0 0 0 1/2 0 0 1/3 1/3 0 0 0 0 0 0 1/2", "--band-points", "21", "--band-const-interval"],
+                                   "BAND = 0 0 0 1/2 0 0 1/3 1/3 0 0 0 0 0 0 1/2\nBAND_POINTS = 21\nBAND_CONST_INTERVAL = .TRUE."),
                                   ("gv", ["--mesh", "2", "2", "2", "--gv"], "MESH = 2 2 2\nGROUP_VELOCITY = .TRUE."),
                                   ("nomeshsym", ["--mesh", "2", "2", "3", "--nomeshsym"], "MESH = 2 2 3\nMESH_SYMMETRY = .FALSE."),
                                   ("dos", ["--mesh", "2", "2", "2", "--dos", "--sigma", "0.2", "--fpitch", "0.5"], "MESH = 2 2 2\nDOS = .TRUE.\nSIGMA = 0.2\nFPITCH = 0.5"),
